@@ -359,7 +359,7 @@ func init() {
 	// rosmar helpers that are cut (formatting of opaque values)
 	stubs[rosmarPath+".encodedCRC32c"] = func(e *Exec, th *Thread, c *CallCtx, a []Val) StubRes {
 		b := a[0].(*BytesV)
-		return ret(e.injUF("crc32c", SStr, b.S))
+		return ret(e.injUF("crc32c", SStr, toBlob(b.S)))
 	}
 	stubs[rosmarPath+".casAsString"] = func(e *Exec, th *Thread, c *CallCtx, a []Val) StubRes {
 		return ret(e.injUF("casStr", SStr, a[0].(*Term)))
